@@ -611,6 +611,13 @@ impl<P: FpConfig<N>, const N: usize> CanonicalDeserializeWithFlags for Fp<P, N> 
         masked_bytes.read_exact_up_to(reader, output_byte_size)?;
         let flags = F::from_u8_remove_flags(&mut masked_bytes[output_byte_size - 1])
             .ok_or(SerializationError::UnexpectedFlags)?;
+        // When the flags do not fit into the top limb they live in an extra
+        // byte. Whatever is left of that byte once the flags are removed is
+        // not part of the integer: it must be zero for the encoding to be
+        // unique.
+        if output_byte_size > 8 * N && masked_bytes[output_byte_size - 1] != 0 {
+            return Err(SerializationError::InvalidData);
+        }
 
         let self_integer = masked_bytes.to_bigint();
         Self::from_bigint(self_integer)
